@@ -188,6 +188,13 @@ def justify_full_units(ctx):
                 n += 1
                 ctx.check(not ({a, b} == {"cells", "chars"} or "mixed" in (a, b)), f.fq, norm(x), f"{m.relpath}:{x.lineno}", f"`{norm(x)}` compares {a} with {b} (spaces count one cell each)",
                           f"`{norm(x)}` in the full-justify branch compares a character count with the cell width: a line with double-width characters is padded beyond the width and the later truncate() crops real characters off its end")
+    # the same unit discipline where the spare width is computed by subtraction instead of compared (closed-form distribution)
+    for x in body:
+        if isinstance(x, _ast.BinOp) and isinstance(x.op, _ast.Sub) and any(isinstance(y, _ast.Name) and y.id == "width" for y in _ast.walk(x.left)) and not any(x in list(_ast.walk(p_)) and p_ is not x for p_ in body if isinstance(p_, _ast.BinOp) and isinstance(p_.op, _ast.Sub)):
+            uu = u(x)
+            n += 1
+            ctx.check(uu != "mixed", f.fq, norm(x), f"{m.relpath}:{x.lineno}", f"`{norm(x)}` subtracts cell measures from the cell width",
+                      f"`{norm(x)}` in the full-justify branch subtracts a character count from the cell width: a line with double-width characters is padded beyond the width and the later truncate() crops real characters off its end")
     ctx.floor(n, 1, "width comparisons in the full-justify branch")
     # every word is re-emitted, in order, unconditionally
     loops = [x for x in body if isinstance(x, _ast.For) and any(isinstance(c, _ast.Name) and c.id == "words" for c in _ast.walk(x.iter))]
@@ -209,7 +216,7 @@ def justify_full_indices(ctx):
     or (B)  L[i]  with i from enumerate(..) under the guard i < len(L).  A list consumed through zip() needs no subscript."""
     import ast as _ast
     from .. import cfg as cfgmod
-    from ..index import norm, short
+    from ..index import AnalysisError, norm, short
     f, br = _full_branch(ctx)
     m = f.module
     g = cfgmod.build(f.node)
@@ -217,8 +224,8 @@ def justify_full_indices(ctx):
     inside = {id(x) for st in br.body for x in _ast.walk(st)}
 
     def is_gap_alloc(v):
-        if isinstance(v, _ast.ListComp) and isinstance(v.elt, _ast.Constant) and v.elt.value == 1:
-            return True
+        if isinstance(v, (_ast.ListComp, _ast.List)):
+            return True  # any list built in the branch (ones, computed gap widths, the empty list)
         if isinstance(v, _ast.BinOp) and isinstance(v.op, _ast.Mult):
             for side in (v.left, v.right):
                 if isinstance(side, _ast.List) and len(side.elts) == 1 and isinstance(side.elts[0], _ast.Constant) and side.elts[0].value == 1:
@@ -238,7 +245,14 @@ def justify_full_indices(ctx):
             if isinstance(st, _ast.Assign) and isinstance(st.targets[0], _ast.Name) and isinstance(st.value, _ast.Name) and st.value.id in names and st.targets[0].id not in names:
                 names.add(st.targets[0].id)
                 changed = True
-    ctx.floor(len(names), 1, "gap-count lists ([1, 1, ...]) in the full-justify branch")
+    if not names:
+        # no list of ones that is bumped cell by cell: the gap widths are computed in closed form (or not at all). IndexError can
+        # then only come from a subscript with a computed index somewhere in the branch
+        risky = [x for st in br.body for x in _ast.walk(st) if isinstance(x, _ast.Subscript) and not isinstance(x.slice, (_ast.Slice, _ast.Constant)) and isinstance(x.ctx, _ast.Load) and not (isinstance(x.value, _ast.Name) and x.value.id == "self")]
+        if risky:
+            raise AnalysisError(f"Lines.justify: no gap-count list was recognised and the branch subscripts `{norm(risky[0])}`; the index clause is not decided for this form")
+        ctx.ok(f.where, "the full-justify branch uses no computed subscript (gap widths in closed form)", f.fq)
+        return
     lens = {f"len({a})" for a in names}
     subs = []
     for n in g.stmt_nodes():
@@ -296,7 +310,7 @@ def justify_full_indices(ctx):
                 w = g.must_pass(sd.id, inits, {n.id})
                 ctx.check(w is None, f.fq, f"{i} initialised after `{short(sd.stmt)}`", where, f"`{i}` is initialised after each new gap list and before its first use",
                           f"a path from `{short(sd.stmt)}` reaches `{norm(x)}` without passing an initialisation of `{i}` (0 or len - 1): the cursor carries over from the previous line (whose gap count can be larger), so the subscript can be out of range", g.describe_path(w) if w else None)
-            resize = [y for y in (z for st in br.body for z in _ast.walk(st)) if isinstance(y, _ast.Call) and isinstance(y.func, _ast.Attribute) and norm(y.func.value) in names and y.func.attr in ("append", "pop", "remove", "clear", "insert", "extend")]
+            resize = [y for y in (z for st in br.body for z in _ast.walk(st)) if isinstance(y, _ast.Call) and isinstance(y.func, _ast.Attribute) and norm(y.func.value) == L and y.func.attr in ("append", "pop", "remove", "clear", "insert", "extend")]
             ctx.check(not resize, f.fq, f"{L} resized", where, f"`{L}` keeps its length while it is indexed", f"`{L}` is resized ({short(resize[0]) if resize else ''}) while the cursor indexes it")
         else:
             # form B: L[i] guarded by i < len(L), i from enumerate (>= 0)
